@@ -16,7 +16,7 @@ from concurrent.futures import ThreadPoolExecutor
 
 ROOT = os.path.dirname(os.path.dirname(os.path.abspath(__file__)))
 COQ = os.path.join(ROOT, "coq")
-HARNESS = os.path.join(ROOT, "harness")
+HARNESS = os.environ.get("RV_HARNESS") or os.path.join(ROOT, "harness")  # RV_HARNESS: scratch copy for mutation experiments
 WORK = os.path.join(ROOT, "work")
 REPO = "/repo"
 NCPU = os.cpu_count() or 4
